@@ -84,6 +84,11 @@ sub vcl_recv {
 	{"hand/empty-bodies", "sub a {}\nacl b {}\ntable c {}\nbackend d {}\ndirector e random {}\nsub f { if (x) {} else {} }\nsub g { {} }"},
 	{"hand/half-statements", "sub vcl_recv { set ; unset ; add ; call ; declare ; declare local ; error ; log ; return ( ; return () ; synthetic ; goto ; if ; if ( ; if () {} ; switch ; include ; import ; }"},
 	{"hand/pragma-in-block", "sub vcl_recv { pragma optional_param geoip_opt_in true"},
+	{"hand/describe", "describe suite {\n  before_recv {\n    set req.http.X = \"1\";\n  }\n  sub test_a {\n    assert.equal(req.http.X, \"1\");\n  }\n  after_deliver {\n    log \"x\";\n  }\n}\nsub describe {\n  esi;\n}\nsub before_recv {\n  esi;\n}\n"},
+	{"hand/describe-broken-sub", "describe s {\n  sub t {\n    set req.http.X = ;\n  }\n}\n"},
+	{"hand/describe-broken-hook", "describe s {\n  before_fetch {\n    set = ;\n  }\n}\n"},
+	{"hand/describe-open", "describe s {\n  sub t {\n    esi;\n  }\n  after_log {"},
+	{"hand/describe-words", "sub vcl_recv {\n  set req.http.describe = \"before_recv\";\n  call describe;\n}\nsub describe {\n}\n"},
 	{"hand/deep", "sub vcl_recv { if (a) { if (b) { if (c) { if (d) { if (e) { esi; } } } } } }"},
 }
 
